@@ -500,7 +500,11 @@ func c12Timing(in c12TimingIn) (interface{}, error) {
 			})
 		}
 	}
-	nc.onClose = func() { add(c12Event{T: now(), K: "closed", TRet: -1, TS: -1}) }
+	connClosed := atomic.Bool{}
+	nc.onClose = func() {
+		add(c12Event{T: now(), K: "closed", TRet: -1, TS: -1})
+		connClosed.Store(true)
+	}
 	dp.onDel = func() { add(c12Event{T: now(), K: "del", TRet: -1, TS: -1}) }
 	tornDown := atomic.Bool{}
 	go func() {
@@ -558,6 +562,9 @@ func c12Timing(in c12TimingIn) (interface{}, error) {
 			}
 		}
 		mu.Unlock()
+		if tornDown.Load() && !connClosed.Load() {
+			continue // Shutdown() is still at work (datapath deletes): its end is part of the observation
+		}
 		if (tornDown.Load() || resolved) && idle > quiet {
 			if wedged {
 				stuck = true
